@@ -3,6 +3,7 @@ package rules
 import (
 	"go/ast"
 	"go/types"
+	"strings"
 
 	"verif/mlbcheck/chk"
 )
@@ -56,6 +57,9 @@ func init() {
 }
 
 func runC17(p *chk.Prog, r *chk.Report) {
+	// what Set accepts the encoders can encode (VALIDATED, shared with C16): otherwise the session aborts and reconnects forever
+	c16Validated(p, r)
+	c17WholeWithdraw(p, r)
 	x := r.Rule("LOCK-GUARDED", "C locks (must-hold lockset dataflow)", "every access to native.session.{closed,conn,actualHoldTime,nextHop,advertised,new,peerFBASNSupport} is made with session.mu held (abort() through its callers: caller-holds fixed point); NewSession is exempt until the goroutines start", 30)
 	guardedRule(x, p, c17Table)
 	c17Cond(p, r)
@@ -272,7 +276,8 @@ func c17Close(p *chk.Prog, r *chk.Report) {
 				rt, ok := n.(*ast.ReturnStmt)
 				return ok && len(rt.Results) == 1 && !f.IsNilLit(rt.Results[0])
 			})
-			y.Check("connect:unexpected-asn-refused", posOf(w1, f), !w1.Found && !w2.Found, "", "an unexpected peer ASN does not close the socket and fail the connection attempt")
+			closed := !w1.Found || branchAlwaysBeforeReturn(f, g, e, f.ContainsPat("C.Close()"))
+			y.Check("connect:unexpected-asn-refused", posOf(w1, f), closed && !w2.Found, "", "an unexpected peer ASN does not close the socket and fail the connection attempt")
 		}
 	}
 	// the ASN that is compared is the one the peer states: the 4-byte-ASN capability, when present, always replaces the
@@ -291,7 +296,24 @@ func c17Close(p *chk.Prog, r *chk.Report) {
 			at, isArr := rc.Info().TypeOf(b["B"]).Underlying().(*types.Array)
 			return isArr && at.Len() == 2 && len(g.FindPat("io.ReadFull(R, B[:])", chk.H("B", func(x ast.Expr) bool { return rc.SameExpr(x, b["B"]) }))) == 1
 		}
-		code65 := chk.GOr(g.GPat(true, "CAP.Code == 65"), g.GPat(true, "C == 65", chk.H("C", hdrByte0)))
+		// ... or, whatever its name, the first field of the two-byte (type, length) record the element header is read into
+		hdrField0 := func(e ast.Expr) bool {
+			se, isSel := ast.Unparen(rc.Resolve(e)).(*ast.SelectorExpr)
+			if !isSel {
+				return false
+			}
+			st, isSt := rc.Info().TypeOf(se.X).Underlying().(*types.Struct)
+			if !isSt || st.NumFields() != 2 || st.Field(0).Name() != se.Sel.Name {
+				return false
+			}
+			for i := 0; i < 2; i++ {
+				if b, isB := st.Field(i).Type().Underlying().(*types.Basic); !isB || b.Kind() != types.Uint8 {
+					return false
+				}
+			}
+			return len(g.FindPat("binary.Read(R, binary.BigEndian, &H)", chk.H("H", func(x ast.Expr) bool { return rc.SameExpr(x, se.X) }))) == 1
+		}
+		code65 := chk.GOr(g.GPat(true, "CAP.Code == 65"), g.GPat(true, "C == 65", chk.H("C", hdrByte0)), g.GPat(true, "C == 65", chk.H("C", hdrField0)))
 		// the four bytes read into an array and decoded big-endian into the result
 		for _, c := range g.FindPat("io.ReadFull(R, A[:])") {
 			if !g.Dominated(c, code65) {
@@ -720,5 +742,61 @@ func c17Diff(p *chk.Prog, r *chk.Report) {
 			}
 			z.Check("Equal:"+fl.Name(), eq.Pos(), okk, "", "Advertisement.Equal does not compare field "+fl.Name()+" by value: a change of it is not re-announced to the peer")
 		}
+	}
+}
+
+// c17WholeWithdraw (shared with C09): the withdraw message names every prefix it was asked to withdraw. The caller
+// swaps its books wholesale after a successful sendWithdraw, so a prefix left out of the message is never looked at
+// again and the peer keeps the route.
+func c17WholeWithdraw(p *chk.Prog, r *chk.Report) {
+	x := r.Rule("WHOLE-WITHDRAW", "B value flow", "native.sendWithdraw hands its prefixes parameter itself (never reassigned, sliced or filtered) to encodePrefixes, on every path to a nil return; encodePrefixes writes every element of its list (a loop without skip or break)", 2)
+	f := need(x, p, natPkg, "", "sendWithdraw")
+	if f != nil {
+		g := f.Graph()
+		var pv *types.Var
+		for i := 0; i < 4; i++ {
+			if v := f.Param(i); v != nil {
+				if sl, isSl := v.Type().Underlying().(*types.Slice); isSl && strings.HasSuffix(sl.Elem().String(), "net.IPNet") {
+					pv = v
+				}
+			}
+		}
+		ok := pv != nil && len(assignsTo(f, pv)) == 0
+		if ok {
+			enc := f.ContainsPat("encodePrefixes(B, P)", chk.H("P", f.IsObj(pv)))
+			// in place: the loop over the parameter itself
+			for _, rs := range f.RangeLoops(f.IsObj(pv)) {
+				if !loopHasBreak(g, rs) {
+					enc = func(n ast.Node) bool { return n == ast.Node(rs.X) }
+				}
+			}
+			for _, rt := range g.Returns() {
+				if rr := retResults(rt); len(rr) == 1 && f.IsNilLit(rr[0]) {
+					// on the shape of the graph, and when that finds a way around (the encoding step expanded in place hands its
+					// error over through a result variable), with the conditions on the way
+					if g.MustPass(chk.Site{}, func(n ast.Node) bool { return n == rt.Top }, false, enc).Found && !g.Dominated(rt, chk.GEvent(enc)) {
+						ok = false
+					}
+				}
+			}
+		}
+		x.Check("sendWithdraw:every-prefix-encoded", f.Pos(), ok, "", "sendWithdraw can report success without having encoded every prefix it was given (the list is cut, filtered or replaced): the caller forgets the withdrawn prefixes wholesale, so the peer keeps the routes that were left out")
+	}
+	e := p.LookupFunc(natPkg, "", "encodePrefixes")
+	if e != nil {
+		g := e.Graph()
+		ok := false
+		for _, rs := range e.RangeLoops(isParamIdx(e, 1)) {
+			wr := func(n ast.Node) bool { return e.ContainsPat("B.Write(ETC)")(n) }
+			ok = !loopCanSkip(g, rs, wr) && !loopHasBreak(g, rs) && len(assignsTo(e, e.Param(1))) == 0
+			for _, rt := range g.Returns() {
+				if chk.InBody(rs, rt.Node) {
+					ok = false
+				}
+			}
+		}
+		x.Check("encodePrefixes:every-element", e.Pos(), ok, "", "encodePrefixes does not write every prefix of its list")
+	} else {
+		x.OK("encodePrefixes:every-element", 0, "encodePrefixes is expanded into its callers")
 	}
 }
